@@ -112,6 +112,100 @@ def build_cases(tier):
     return out
 
 
+# ---------------------------------------------------------------------------------- ImageIterator frames
+ITER_TERMS = [[12, 8], [6, 5], [20, 10]]
+ITER_GIF = ["gif", 5, 4, 2, 0]          # 2 frames
+ITER_LOOPS = 3
+
+
+def schedules(nsteps, max_changes):
+    """Every sequence of terminal sizes (one per frame step) with at most *max_changes* resizes."""
+    out = []
+
+    def rec(seq, changes):
+        if len(seq) == nsteps:
+            out.append(list(seq))
+            return
+        for t in ITER_TERMS:
+            ch = changes + (t != seq[-1])
+            if ch <= max_changes:
+                rec(seq + [t], ch)
+
+    for t in ITER_TERMS:
+        rec([t], 0)
+    return out
+
+
+def build_iter_cases(tier):
+    quick = tier == "quick"
+    combos = ([("block", i, None, None) for i in ("other", "kitty")] +
+              [("kitty", i, m, [2, 3]) for i in ("kitty", "konsole") for m in ("lines", "whole")] +
+              [("iterm2", i, m, [2, 3]) for i in ("iterm2", "wezterm", "konsole") for m in ("lines", "whole", "anim")])
+    scheds = schedules(ITER_LOOPS * ITER_GIF[3], 1 if quick else 2)
+    cases = []
+    for style, ident, method, cell in combos:
+        for fit in (True, False):
+            for cached in (True, False):
+                for sch in scheds:
+                    c = dict(part="iter", style=style, identity=ident, cell=cell, src=ITER_GIF, kind="file", fmt="gif",
+                             cached=cached, repeat=ITER_LOOPS, schedule=sch)
+                    if method:
+                        c["method"] = method
+                    if fit:
+                        c["fit"] = True
+                    else:
+                        c["size"] = [3, 2]
+                    cases.append(c)
+    return cases
+
+
+_frame_memo = {}    # (frame hash, identity, w, h) -> problems; saves time only, nothing is counted from it
+
+
+def iter_case(col, case):
+    """Frames of a (caching) ImageIterator while the terminal is resized between frames: every
+    frame must occupy exactly the rectangle image.rendered_size advertises at that moment."""
+    L = world.load()
+    sched = case["schedule"]
+    sub = cc.build(dict(case, term=sched[0]))
+    ident = cc.vt_identity(case["identity"])
+    img = sub.img
+    spec = "1.1" + ("+" + case["method"][0].upper() if case.get("method") else "")
+    it = L.common.ImageIterator(img, case["repeat"], spec, case["cached"])
+    try:
+        resized = False
+        for k, term in enumerate(sched):
+            if k and term != sched[k - 1]:
+                cc.resize_terminal(*term, cell=case.get("cell"))
+                resized = True
+            frame = next(it)
+            col.count()
+            w, h = img.rendered_size
+            key = (h64(frame), ident, w, h)
+            probs = _frame_memo.get(key)
+            if probs is None:
+                probs = []
+                if frame.count("\n") != h - 1 or frame.endswith("\n"):
+                    probs.append(("newline-count", f"{frame.count(chr(10))} newlines (trailing: "
+                                  f"{frame.endswith(chr(10))}) in a frame advertised as {h} lines"))
+                for cols, rows, r0, c0 in cc.positions(w, h, 1):
+                    for clause, text in cc.judge_rectangle(frame, ident, w, h, cols, rows, r0, c0):
+                        probs.append((clause, f"{text} [screen {cols}x{rows}, anchored at row {r0} col {c0}]"))
+                        break
+                    else:
+                        continue
+                    break
+                _frame_memo[key] = probs
+            for clause, text in probs[:1]:
+                col.violation(sig_of(case, clause, part="iterator", cached=case["cached"], fit=bool(case.get("fit")),
+                                     after_resize=resized),
+                              f"frame {k} (terminal {term}, advertised {w}x{h}): {text}", dict(case, step=k))
+            col.add_distinct(key)
+    finally:
+        it.close()
+        sub.close()
+
+
 # ---------------------------------------------------------------------------------- one case
 def sig_of(case, clause, **more):
     s = dict(clause=clause, style=case["style"], method=case.get("method") or "default",
@@ -181,6 +275,15 @@ def _shard1(items):
     return col
 
 
+def _shard_iter(cases):
+    col = _CTX.new_collector()
+    for case in cases:
+        _guard(col, case, lambda: iter_case(col, case))
+        if col.evaluations % 1499 == 0:
+            col.sample(case)
+    return col
+
+
 def _shard2(items):
     col = _CTX.new_collector()
     for idx, case in items:
@@ -216,6 +319,9 @@ def run(ctx):
     reps = sorted(set(keys.values()))
     for col in explore.pmap(_shard2, explore.rotate(sorted(((i, cases[i]) for i in reps), key=lambda ic: h64(repr(sorted(ic[1].items())))))):
         ctx.merge(col)
+    icases = build_iter_cases(ctx.tier)
+    for col in explore.pmap(_shard_iter, explore.rotate(cc.spread(icases))):
+        ctx.merge(col)
     for c in cases[:2]:
         ctx.sample(c)
     per_style = {}
@@ -228,7 +334,11 @@ def run(ctx):
                 "string, terminal identity, size) executed at every fitting anchor of every screen "
                 f"(w..w+{EXTRA})x(h..h+{EXTRA}); evaluations = renders (cases + one re-render per distinct string); "
                 "distinct = distinct (render string, identity, size)")
+    ctx.rule += ("; iterator part: every frame of ImageIterator (3 loops x 2 frames, cached / uncached, dynamic / "
+                 f"fixed size) under every schedule of terminal sizes with <= {1 if ctx.tier == 'quick' else 2} "
+                 "resizes between frames (one evaluation per frame)")
     ctx.coverage.update(cases=len(cases), cases_per_style=per_style, swept_renders=len(reps),
+                        iterator_histories=len(icases), iterator_terminals=[repr(t) for t in ITER_TERMS],
                         screens=f"(w..w+{EXTRA}) x (h..h+{EXTRA}), every (row, anchor column) where the rectangle fits",
                         alphas=[repr(a) for a in ALPHAS], cells=[repr(c) for c in CELLS])
     ctx.assumptions += ["vlib/vterm.py is the terminal (DESIGN Appendix A); a render is anchored with the "
@@ -243,6 +353,10 @@ def replay(ctx, case):
     case = dict(case)
     case.pop("screen", None)
     case.pop("at", None)
+    if case.get("part") == "iter":
+        case.pop("step", None)
+        _guard(ctx, case, lambda: iter_case(ctx, case))
+        return
 
     def f():
         key, s = render_case(ctx, case)
